@@ -216,6 +216,47 @@ class Sealer:
         return out
 
 
+def randomize_generations(rng, data, share=0.6):
+    """Give a share of the live ordinary inodes a random i_generation, the way the kernel numbers the inodes it
+    creates (debugfs and mke2fs leave 0 everywhere), and re-seal everything keyed to it: the inode itself, its extent
+    blocks, its directory leaf blocks and htree nodes.  Returns the new image bytes and the number of inodes changed."""
+    fs = RefFS(data=bytes(data))
+    s = Sealer(data, fs)
+    n = 0
+    special = set(x for x in (fs.sb.get("s_journal_inum"), fs.sb.get("s_usr_quota_inum"), fs.sb.get("s_grp_quota_inum"),
+                              fs.sb.get("s_prj_quota_inum"), fs.sb.get("s_orphan_file_inum")) if x)
+    for ino, i in fs.iter_inodes():
+        if not i.mode or not i.links_count or i.dtime or ino in special:
+            continue
+        if ino < fs.sb["s_first_ino"] and ino != 2:
+            continue
+        if i.flags & 0x200000:          # EA value inode: its hash and back-pointers live in other fields; leave alone
+            continue
+        if not rng.chance(share):
+            continue
+        try:
+            tree = []
+            if (i.flags & 0x80000) and not (i.flags & 0x10000000):
+                _e, tree = fs.extents(i)
+            leaves, nodes = [], []
+            if (i.mode & 0xF000) == 0x4000 and not (i.flags & 0x10000000):
+                leaves = fs.dir_blocks(i)
+                ht = fs.htree(i)
+                nodes = ht["nodes"] if ht else []
+        except refext4.FormatError:
+            continue
+        s.p32(fs.inode_loc(ino) + 100, (rng.u64() & 0xFFFFFFFF) or 1)
+        s.seal_inode(ino)
+        for blk in tree:
+            s.seal_extent_block(ino, blk)
+        for _lblk, pblk in leaves:
+            s.seal_dir_leaf(ino, pblk)
+        for node in nodes:
+            s.seal_dx(ino, node["pblk"], node["count_offset"])
+        n += 1
+    return bytes(s.d), n
+
+
 def _field(rng, s, base, fields, limit=None):
     fields = [f for f in fields if limit is None or f[1] + f[2] <= limit]
     name, off, size = rng.choice(fields)
